@@ -1256,6 +1256,178 @@ theorem recv_eff {cfg : Cfg} {me : ChainId} {c c' : Chain} {p : Packet}
     exact ⟨1, _, nonzeroEff 1 (by omega), Or.inl hc'⟩
 
 
+/-! ### batched sends: one transaction, several `crossChainCall`s (all legs committed, or nothing) -/
+
+/-- nothing the bridge bookkeeping looks at changes; the packet contract's balances do not decrease -/
+structure BridgeLe (e e' : Evm) : Prop where
+  out : e'.out = e.out
+  bindAmt : e'.bindAmt = e.bindAmt
+  credited : e'.credited = e.credited
+  refunded : e'.refunded = e.refunded
+  feePaid : e'.feePaid = e.feePaid
+  fee : e'.fee = e.fee
+  bal : ∀ F, e.bal F acPacket ≤ e'.bal F acPacket
+
+theorem set_self (w : World) (X : ChainId) : w.set X (w.chains X) = w := by
+  simp only [World.set]
+  congr 1
+  funext y
+  simp only [upd1]
+  split
+  · rename_i h; rw [h]
+  · rfl
+
+theorem sendKeeper_seq {cfg : Cfg} {c c' : Chain} {p : Packet} (h : sendKeeper cfg c p = some c') :
+    p.seq = c.nextSeq p.dst := by
+  unfold sendKeeper at h
+  split at h
+  · rename_i hc; exact hc.2
+  · cases h
+
+/-- the interleaved reading of a batch: each leg's EVM part (with the sequence numbers read at the START of the
+transaction) immediately followed by its hook -/
+def batchI (cfg : Cfg) (self : ChainId) (seq0 : ChainId → Nat) (strict : Bool) : Chain → List Leg → Option Chain
+  | c, [] => some c
+  | c, .approve t n :: ls =>
+    batchI cfg self seq0 strict { c with evm := { c.evm with allow := upd2 c.evm.allow t acForwarder n } } ls
+  | c, .send a :: ls =>
+    match sendEvm cfg self (seq0 a.dst) c.evm acForwarder a with
+    | none => if strict then none else batchI cfg self seq0 strict c ls
+    | some (e1, p) =>
+      match sendKeeper cfg { c with evm := e1 } p with
+      | none => none
+      | some c1 => batchI cfg self seq0 strict c1 ls
+
+/-- the transaction as `ApplyTransaction` runs it: the whole EVM execution first, then the hook over all events -/
+def twoPhase (cfg : Cfg) (self : ChainId) (seq0 : ChainId → Nat) (strict : Bool) (c : Chain) (legs : List Leg) : Option Chain :=
+  match batchEvm cfg self seq0 strict c.evm legs with
+  | none => none
+  | some (e, ps) => batchKeeper cfg { c with evm := e } ps
+
+/-- **EVM-then-hooks = leg by leg**: because the hook handles every `PacketSent` event in order and fails on the first
+failing `SendPacket`, running the hooks after the whole EVM execution commits exactly what a leg-by-leg execution
+would (and fails exactly when it would). -/
+theorem twoPhase_eq_batchI (cfg : Cfg) (self : ChainId) (seq0 : ChainId → Nat) (strict : Bool) :
+    ∀ (legs : List Leg) (c : Chain), twoPhase cfg self seq0 strict c legs = batchI cfg self seq0 strict c legs
+  | [], c => by simp [twoPhase, batchEvm, batchKeeper, batchI]
+  | .approve t n :: ls, c => by
+    have ih := twoPhase_eq_batchI cfg self seq0 strict ls
+      { c with evm := { c.evm with allow := upd2 c.evm.allow t acForwarder n } }
+    simp only [twoPhase, batchEvm, batchI] at ih ⊢
+    exact ih
+  | .send a :: ls, c => by
+    simp only [twoPhase, batchEvm, batchI]
+    cases hs : sendEvm cfg self (seq0 a.dst) c.evm acForwarder a with
+    | none =>
+      simp only
+      by_cases hst : strict = true
+      · simp [hst]
+      · have hf : strict = false := by simpa using hst
+        subst hf
+        have ih := twoPhase_eq_batchI cfg self seq0 false ls c
+        simp only [twoPhase] at ih
+        simpa using ih
+    | some r =>
+      obtain ⟨e1, p⟩ := r
+      simp only
+      by_cases hk : cfg.clients p.dst = true ∧ p.seq = c.nextSeq p.dst
+      · have hk1 : sendKeeper cfg { c with evm := e1 } p =
+            some { c with evm := e1, nextSeq := upd1 c.nextSeq p.dst (p.seq + 1), commits := p :: c.commits } := by
+          simp [sendKeeper, hk]
+        rw [hk1]
+        have ih := twoPhase_eq_batchI cfg self seq0 strict ls
+          { c with evm := e1, nextSeq := upd1 c.nextSeq p.dst (p.seq + 1), commits := p :: c.commits }
+        simp only [twoPhase] at ih
+        simp only
+        rw [← ih]
+        cases hb : batchEvm cfg self seq0 strict e1 ls with
+        | none => rfl
+        | some r2 =>
+          obtain ⟨e2, ps⟩ := r2
+          simp only [batchKeeper, sendKeeper, hk, and_self, ↓reduceIte]
+      · have hk1 : ∀ e, sendKeeper cfg { c with evm := e } p = none := by
+          intro e; simp [sendKeeper, hk]
+        rw [hk1]
+        cases hb : batchEvm cfg self seq0 strict e1 ls with
+        | none => rfl
+        | some r2 =>
+          obtain ⟨e2, ps⟩ := r2
+          simp only [batchKeeper, hk1]
+
+/-- generic preservation: a world property that survives (a) a complete single send on chain `X` and (b) a change of
+chain `X`'s EVM state that the bridge bookkeeping does not see, survives every batch on `X`. -/
+theorem batchI_preserves (P : World → Prop) (X : ChainId) (seq0 : ChainId → Nat) (strict : Bool)
+    (hsend : ∀ w c' p, P w → SendEff (w.cfg X) X (w.chains X) c' p → P (w.set X c'))
+    (hframe : ∀ w e', P w → BridgeLe (w.chains X).evm e' → P (w.set X { (w.chains X) with evm := e' })) :
+    ∀ (legs : List Leg) (w : World) (c' : Chain), P w →
+      batchI (w.cfg X) X seq0 strict (w.chains X) legs = some c' → P (w.set X c')
+  | [], w, c', hP, h => by
+    simp only [batchI] at h
+    have := (Option.some.inj h).symm; subst this
+    rw [set_self]; exact hP
+  | .approve t n :: ls, w, c', hP, h => by
+    simp only [batchI] at h
+    have h1 := hframe w { (w.chains X).evm with allow := upd2 (w.chains X).evm.allow t acForwarder n } hP
+      ⟨rfl, rfl, rfl, rfl, rfl, rfl, fun _ => Nat.le_refl _⟩
+    have := batchI_preserves P X seq0 strict hsend hframe ls _ c' h1 (by rw [set_cfg, set_chains_eq]; exact h)
+    rw [set_set] at this; exact this
+  | .send a :: ls, w, c', hP, h => by
+    simp only [batchI] at h
+    split at h
+    · split at h
+      · cases h
+      · exact batchI_preserves P X seq0 strict hsend hframe ls w c' hP h
+    · rename_i e1 p hs
+      split at h
+      · cases h
+      · rename_i c1 hk
+        have he := sendEvm_eff (by decide : acForwarder ≠ acPacket) hs
+        have hseq := sendKeeper_seq hk
+        have eff : SendEff (w.cfg X) X (w.chains X) c1 p :=
+          sendKeeper_eff (c0 := w.chains X) (by rw [← he.seq]; exact hseq) he hk
+        have h1 := hsend w c1 p hP eff
+        have := batchI_preserves P X seq0 strict hsend hframe ls _ c' h1 (by rw [set_cfg, set_chains_eq]; exact h)
+        rw [set_set] at this; exact this
+
+theorem batch_some {cfg : Cfg} {me : ChainId} {c c' : Chain} {sender : Acct} {strict : Bool} {legs : List Leg}
+    (hb : batch cfg me c sender strict legs = some c') :
+    ∃ e0, BridgeLe c.evm e0 ∧ twoPhase cfg me c.nextSeq strict { c with evm := e0 } legs = some c' := by
+  unfold batch at hb
+  split at hb
+  · cases hb
+  rename_i hsys
+  split at hb
+  · cases hb
+  rename_i e0 hd
+  have hde := debit_some hd
+  subst hde
+  have hsp : ¬ acPacket = sender := fun h => hsys (Or.inr h.symm)
+  have hpf : ¬ acPacket = acForwarder := by decide
+  refine ⟨?w, ?h1, ?h2⟩
+  case h2 => unfold twoPhase; exact hb
+  case h1 =>
+    refine ⟨rfl, rfl, rfl, rfl, rfl, rfl, ?_⟩
+    intro F
+    simp only [credit, upd2_app]
+    simp [hsp, hpf]
+
+/-- … and so does the property survive the `batch` transaction itself (value transfer to the forwarder, EVM, hooks). -/
+theorem batch_preserves (P : World → Prop) (X : ChainId)
+    (hsend : ∀ w c' p, P w → SendEff (w.cfg X) X (w.chains X) c' p → P (w.set X c'))
+    (hframe : ∀ w e', P w → BridgeLe (w.chains X).evm e' → P (w.set X { (w.chains X) with evm := e' }))
+    (w : World) (sender : Acct) (strict : Bool) (legs : List Leg) (hP : P w) :
+    P (step true w (.batch X sender strict legs)) := by
+  simp only [step]
+  split
+  · exact hP
+  rename_i c' hb
+  obtain ⟨e0, hle, htp⟩ := batch_some hb
+  rw [twoPhase_eq_batchI] at htp
+  have h1 := hframe w e0 hP hle
+  have := batchI_preserves P X (w.chains X).nextSeq strict hsend hframe legs _ c' h1
+    (by rw [set_cfg, set_chains_eq]; exact htp)
+  rw [set_set] at this; exact this
+
 /-! ### the invariant and the main theorems -/
 
 /-- `Inv` = well-formed + `Conserved`. -/
@@ -1271,6 +1443,11 @@ theorem findPacket_some {l : List Packet} {dst : ChainId} {seq : Nat} {p : Packe
 
 theorem inv_step (w : World) (s : Step) (h : Inv w) : Inv (step true w s) := by
   cases s with
+  | batch i sender strict legs =>
+    exact batch_preserves Inv i
+      (fun w c' p hw e => ⟨wf_send w i c' p hw.1 e, conserved_send w i c' p hw.1 hw.2 e⟩)
+      (fun w e' hw hle => inv_frame w i _ hw.1 hw.2 rfl rfl rfl rfl hle.out hle.bindAmt)
+      w sender strict legs h
   | send i sender a =>
     simp only [step]
     split
@@ -1800,6 +1977,12 @@ theorem full_step (w : World) (s : Step) (h : FullInv w) : FullInv (step true w 
   refine ⟨inv_step w s h.1, ?_⟩
   obtain ⟨⟨hw, hc⟩, g⟩ := h
   cases s with
+  | batch i sender strict legs =>
+    exact (batch_preserves FullInv i
+      (fun w c' p hw e => ⟨⟨wf_send w i c' p hw.1.1 e, conserved_send w i c' p hw.1.1 hw.1.2 e⟩, ginv_send w i c' p hw.2 e⟩)
+      (fun w e' hw hle => ⟨inv_frame w i _ hw.1.1 hw.1.2 rfl rfl rfl rfl hle.out hle.bindAmt,
+        ginv_frame w i _ hw.2 rfl rfl rfl hle.credited hle.refunded⟩)
+      w sender strict legs ⟨⟨hw, hc⟩, g⟩).2
   | send i sender a =>
     simp only [step]
     split
@@ -2058,6 +2241,12 @@ theorem fs_frame (w : World) (X : ChainId) (c' : Chain) (fs : FeeSolvent w)
 theorem fs_step (w : World) (s : Step) (h : Inv w) (fs : FeeSolvent w) : FeeSolvent (step true w s) := by
   have hpa : ¬ acPacket = acAgent := by decide
   cases s with
+  | batch i sender strict legs =>
+    exact (batch_preserves (fun w => Inv w ∧ FeeSolvent w) i
+      (fun w c' p hw e => ⟨⟨wf_send w i c' p hw.1.1 e, conserved_send w i c' p hw.1.1 hw.1.2 e⟩, fs_send w i c' p hw.1.1 hw.2 e⟩)
+      (fun w e' hw hle => ⟨inv_frame w i _ hw.1.1 hw.1.2 rfl rfl rfl rfl hle.out hle.bindAmt,
+        fs_frame w i _ hw.2 rfl hle.fee hle.bal⟩)
+      w sender strict legs ⟨h, fs⟩).2
   | send i sender a =>
     simp only [step]
     split
@@ -2332,6 +2521,12 @@ theorem finv_frame (w : World) (X : ChainId) (c' : Chain) (g : FInv w)
 
 theorem finv_step (w : World) (s : Step) (h : Inv w) (g : FInv w) : FInv (step true w s) := by
   cases s with
+  | batch i sender strict legs =>
+    exact (batch_preserves (fun w => Inv w ∧ FInv w) i
+      (fun w c' p hw e => ⟨⟨wf_send w i c' p hw.1.1 e, conserved_send w i c' p hw.1.1 hw.1.2 e⟩, finv_send w i c' p hw.2 e⟩)
+      (fun w e' hw hle => ⟨inv_frame w i _ hw.1.1 hw.1.2 rfl rfl rfl rfl hle.out hle.bindAmt,
+        finv_frame w i _ hw.2 rfl rfl rfl rfl hle.feePaid⟩)
+      w sender strict legs ⟨h, g⟩).2
   | send i sender a =>
     simp only [step]
     split
@@ -2702,5 +2897,124 @@ example : ((run true w0 callOnlySteps).chains 0).commits.length = 1 ∧
 
 example : FeeSolvent (run true w0 (f13Steps ++ callOnlySteps)) :=
   fee_solvent_run _ w0 inv_w0 feeSolvent_w0
+
+/-! ### batches are atomic -/
+
+def Leg.isSend : Leg → Bool
+  | .send _ => true
+  | .approve _ _ => false
+
+theorem batchI_strict_commits (cfg : Cfg) (self : ChainId) (seq0 : ChainId → Nat) :
+    ∀ (legs : List Leg) (c c' : Chain), batchI cfg self seq0 true c legs = some c' →
+      c'.commits.length = c.commits.length + (legs.filter Leg.isSend).length
+  | [], c, c', h => by
+    simp only [batchI] at h
+    have := (Option.some.inj h).symm; subst this; simp
+  | .approve t n :: ls, c, c', h => by
+    simp only [batchI] at h
+    have := batchI_strict_commits cfg self seq0 ls _ c' h
+    simpa [Leg.isSend] using this
+  | .send a :: ls, c, c', h => by
+    simp only [batchI] at h
+    split at h
+    · simp at h
+    · rename_i e1 p hs
+      split at h
+      · cases h
+      · rename_i c1 hk
+        have := batchI_strict_commits cfg self seq0 ls c1 c' h
+        have h1 : c1.commits = p :: c.commits := by
+          unfold sendKeeper at hk
+          split at hk
+          · have := (Option.some.inj hk).symm; subst this; rfl
+          · cases hk
+        rw [this, h1]
+        have : (List.filter Leg.isSend (Leg.send a :: ls)).length = (List.filter Leg.isSend ls).length + 1 := by
+          simp [List.filter, Leg.isSend]
+        rw [this]; simp; omega
+
+theorem batchI_strict_no_client (cfg : Cfg) (self : ChainId) (seq0 : ChainId → Nat) (a : SendArgs)
+    (hc : cfg.clients a.dst = false) :
+    ∀ (legs : List Leg) (c : Chain), Leg.send a ∈ legs → batchI cfg self seq0 true c legs = none
+  | [], _, h => by cases h
+  | .approve t n :: ls, c, h => by
+    simp only [batchI]
+    cases h with
+    | tail _ h => exact batchI_strict_no_client cfg self seq0 a hc ls _ h
+  | .send b :: ls, c, h => by
+    simp only [batchI]
+    cases hs : sendEvm cfg self (seq0 b.dst) c.evm acForwarder b with
+    | none => simp
+    | some r =>
+      obtain ⟨e1, p⟩ := r
+      simp only
+      cases hk : sendKeeper cfg { c with evm := e1 } p with
+      | none => rfl
+      | some c1 =>
+        simp only
+        cases h with
+        | head =>
+          exfalso
+          have he := sendEvm_eff (by decide : acForwarder ≠ acPacket) hs
+          unfold sendKeeper at hk
+          rw [he.dstEq, hc] at hk
+          simp at hk
+        | tail _ h => exact batchI_strict_no_client cfg self seq0 a hc ls c1 h
+
+/-- **A strict batch is all-or-nothing.** Either the transaction changes nothing, or EVERY `crossChainCall` leg of it
+has its packet committed (exactly one new commitment per leg) — there is no outcome in which the endpoint has
+escrowed or burnt for a leg whose packet the keeper does not hold. -/
+theorem batch_strict_all_or_nothing (w : World) (i : ChainId) (sender : Acct) (legs : List Leg) :
+    step true w (.batch i sender true legs) = w ∨
+    ((step true w (.batch i sender true legs)).chains i).commits.length =
+      (w.chains i).commits.length + (legs.filter Leg.isSend).length := by
+  simp only [step]
+  split
+  · exact Or.inl rfl
+  · rename_i c' hb
+    right
+    obtain ⟨e0, _, htp⟩ := batch_some hb
+    rw [twoPhase_eq_batchI] at htp
+    rw [set_chains_eq]
+    exact batchI_strict_commits _ _ _ legs { (w.chains i) with evm := e0 } c' htp
+
+/-- **A batch with a leg towards a chain without client changes nothing** (the post-transaction hook fails on that
+leg's `SendPacket`, `ApplyTransaction` reverts the EVM state of ALL legs). -/
+theorem batch_leg_without_client_unchanged (w : World) (i : ChainId) (sender : Acct) (legs : List Leg) (a : SendArgs)
+    (hmem : Leg.send a ∈ legs) (hc : (w.cfg i).clients a.dst = false) :
+    step true w (.batch i sender true legs) = w := by
+  simp only [step]
+  split
+  · rfl
+  · rename_i c' hb
+    exfalso
+    obtain ⟨e0, _, htp⟩ := batch_some hb
+    rw [twoPhase_eq_batchI, batchI_strict_no_client _ _ _ a hc legs _ hmem] at htp
+    cases htp
+
+/-! a concrete batch: chain 0 with clients of chains 1 and 2 -/
+
+def cfgA3 : Cfg := { clients := fun j => j == 1 || j == 2, trace := fun _ _ => none, ori := fun _ _ => none, scale := fun _ _ => 0 }
+def w3 : World :=
+  { cfg := fun i => if i = 0 then cfgA3 else cfgB,
+    chains := fun i => if i = 0 then { Chain.empty with evm := evm0 } else Chain.empty }
+
+def leg (dst : ChainId) (amt fee : Nat) : Leg :=
+  .send { dst := dst, token := 1, amount := amt, receiver := 6, call := .none, feeToken := 1, feeAmount := fee, callback := false }
+
+def batchSteps : List Step :=
+  [.transfer 0 1 0 acForwarder 3000,
+   .batch 0 0 true [.approve 1 100000, leg 1 300 5, leg 2 200 4],      -- two destinations: both committed
+   .batch 0 0 true [leg 1 100 1, leg 3 100 1],                          -- a leg without client: nothing happens
+   .batch 0 0 true [leg 1 10 1, leg 1 20 1],                            -- same destination twice: same sequence, nothing happens
+   .batch 0 0 false [leg 1 100 1, leg 2 999999 1]]                      -- non-strict: the failing leg alone is skipped
+
+example :
+    ((run true w3 batchSteps).chains 0).commits.length = 3 ∧
+    ((run true w3 batchSteps).chains 0).evm.out 1 1 = 400 ∧ ((run true w3 batchSteps).chains 0).evm.out 1 2 = 200 ∧
+    ((run true w3 batchSteps).chains 0).evm.out 1 3 = 0 ∧
+    ((run true w3 batchSteps).chains 0).nextSeq 1 = 3 ∧ ((run true w3 batchSteps).chains 0).nextSeq 2 = 2 ∧
+    ((run true w3 batchSteps).chains 0).evm.bal 1 acPacket = 10 ∧
+    ((run true w3 batchSteps).chains 0).evm.bal 1 acForwarder = 2390 := by decide
 
 end TM.World
